@@ -66,7 +66,15 @@ func c17(c *Ctx) {
 					fv, _ := fieldOf(info, ie.X)
 					cnt[f.Name+fv.Name()]++
 					key := "sdk/log|" + f.Name + "|element store into Record." + fv.Name() + " #" + itoa(cnt[f.Name+fv.Name()]) + " sanitised"
-					c.Check(rhs != nil && isApply(rhs), "R1", key, site, "value is applyAttrLimits(…)",
+					okSan := rhs != nil && isApply(rhs)
+					if !okSan && rhs != nil {
+						// a variable whose last assignment on every path is v = applyAttrLimits(…)
+						if vo := objOf(info, rhs); vo != nil {
+							gg := ix.FG(f)
+							okSan = sanitisedAt(gg, info, vo, gg.NodeOf(as), isApply)
+						}
+					}
+					c.Check(okSan, "R1", key, site, "value is applyAttrLimits(…)",
 						"an attribute is stored without applyAttrLimits: an over-long string value overwriting an existing key is kept untruncated")
 					continue
 				}
@@ -126,7 +134,7 @@ func c17(c *Ctx) {
 	}
 
 	// R2 count-limit table
-	c.Rule("R2", "E2 decision table", "count limit semantics follow the documented table: > 0 caps, 0 records none, < 0 is unlimited (head and AddAttributes)", 8)
+	c.Rule("R2", "E2 decision table", "count limit semantics follow the documented table: > 0 caps, 0 records none, < 0 is unlimited (head and AddAttributes); de-duplication precedes the cut; the attribute walk of newRecord is total", 11)
 	fLimit := lookupField(ix.Pkg, "Record", "attributeCountLimit")
 	if fn := c.Fn(ix, "R2", "head"); fn != nil {
 		g := ix.FG(fn)
@@ -224,12 +232,78 @@ func c17(c *Ctx) {
 				}
 			}
 			// without cut: the final addAttrs must be reachable without passing a cut
-			s2, _ := g.ReachFromEntry(func(x *GNode) bool { return cuts[x] }, func(e *GEdge) bool { return !edgeOpen(info, e, env) })
+			s2, _ := g.ReachFromEntry(func(x *GNode) bool { return cuts[x] }, func(e *GEdge) bool { return !edgeOpen(info, e, g.withLocals(env)) })
 			uncutExit := s2[g.Exit]
 			got := cut && !uncutExit
 			c.Check(got == row.cut && (row.cut || !cut), "R2", "sdk/log|(*Record).AddAttributes|"+row.name, at(ix.M, addA.Pos()), "cut="+boolStr(got),
 				"count limit "+row.name+" with "+itoa(int(row.n))+" existing and "+itoa(int(row.len))+" new attributes: code cuts="+boolStr(got)+", documented behaviour cuts="+boolStr(row.cut))
 		}
+	}
+
+	// the count limit applies to distinct keys: wherever both are used, de-duplication precedes the cut
+	ddF, headF := ix.Func("dedup"), ix.Func("head")
+	for _, nm := range []string{"(*Record).AddAttributes", "(*Record).SetAttributes"} {
+		fn := c.Fn(ix, "R2", nm)
+		if fn == nil || ddF == nil || headF == nil {
+			continue
+		}
+		g := ix.FG(fn)
+		dds, hds := g.Match(callToDecl(info, ddF)), g.Match(callToDecl(info, headF))
+		if len(hds) == 0 {
+			continue
+		}
+		good := len(dds) > 0
+		for _, h := range hds {
+			if d, _ := g.DominatedByNodes(h, toSet(dds)); !d {
+				good = false
+			}
+			// and no de-duplication after the cut (it would free slots the cut already spent on duplicates)
+			after, _ := g.Reach([]*GNode{h}, nil, nil)
+			for _, d := range dds {
+				if after[d] {
+					good = false
+				}
+			}
+		}
+		c.Check(good, "R2", "sdk/log|"+nm+"|dedup before head", at(ix.M, fn.Pos()), "the limit counts distinct keys", "the count limit is applied to the raw list before de-duplication: duplicates use up limit slots (fewer attributes kept than allowed, a later value of a kept key is lost)")
+	}
+	// every offered attribute is accounted for: the walk that copies the API record's attributes never stops early
+	if fn := c.Fn(ix, "R2", "(*logger).newRecord"); fn != nil {
+		n, good := 0, true
+		for _, lf := range ix.All {
+			if lf.Lit == nil || ix.Parent[lf.Lit] != fn {
+				continue
+			}
+			// literal passed to WalkAttributes
+			isWalkArg := false
+			inspectNoLit(fn.Body(), func(nd ast.Node) bool {
+				if call, ok := nd.(*ast.CallExpr); ok {
+					if cf := callee(info, call); cf != nil && cf.Name() == "WalkAttributes" && len(call.Args) == 1 && unparen(call.Args[0]) == ast.Expr(lf.Lit) {
+						isWalkArg = true
+					}
+				}
+				return true
+			})
+			if !isWalkArg {
+				continue
+			}
+			inspectNoLit(lf.Body(), func(nd ast.Node) bool {
+				if rs, ok := nd.(*ast.ReturnStmt); ok {
+					n++
+					if len(rs.Results) != 1 {
+						good = false
+						return true
+					}
+					tv := info.Types[rs.Results[0]]
+					if tv.Value == nil || tv.Value.Kind() != constant.Bool || !constant.BoolVal(tv.Value) {
+						good = false
+					}
+				}
+				return true
+			})
+		}
+		c.Check(good && n > 0, "R2", "sdk/log|(*logger).newRecord|the attribute walk never stops early", at(ix.M, fn.Pos()), itoa(n)+" return(s), all constant true",
+			"the copy of the emitted record's attributes stops before the end: attributes beyond that point are neither kept nor counted as dropped (kept + dropped < offered), and a later value for a kept key is lost")
 	}
 
 	// R3 Clone complete; limits initialised before the first AddAttributes
@@ -417,6 +491,18 @@ func c17(c *Ctx) {
 				}
 				seen := g.ReachUnder(env)
 				var truncates, recurses, applies, dedups bool
+				// the record's limit, possibly read once into a local
+				isLimitVal := func(e ast.Expr) bool {
+					if isField(info, e, fVL) {
+						return true
+					}
+					if id, ok := unparen(e).(*ast.Ident); ok {
+						if def := g.LocalDef(info.Uses[id]); def != nil {
+							return isField(info, def, fVL)
+						}
+					}
+					return false
+				}
 				for x := range seen {
 					if x.N == nil {
 						continue
@@ -427,7 +513,7 @@ func c17(c *Ctx) {
 							return true
 						}
 						switch {
-						case callToDecl(info, tr)(call) && len(call.Args) == 2 && isField(info, call.Args[0], fVL):
+						case callToDecl(info, tr)(call) && len(call.Args) == 2 && isLimitVal(call.Args[0]):
 							truncates = true
 						case callToDecl(info, fn)(call):
 							recurses = true
